@@ -79,6 +79,72 @@ theorem zip_failed_restart_repeatable (bcf : Nat → Bool) (tbl : List BlkInfo) 
     recoverZ bcf tbl { d with base := runIns d.base ((hdrIns H).take k) } = recoverZ bcf tbl d := by
   rw [hdrIns_noop d.base H h1 h2 k]
 
+/-! ### the restart's own writes on a node with compaction files / without bodies, step by step
+
+`setup_head`'s syncs (`PMMRBackend::sync`: hash file and data file truncated, leaf set rewritten, prune
+list rewritten with the content it has) never change WHICH pruned set a hash / data file is compacted
+for, the prune list's content, the body tail or the set of stored bodies: the durable state of such a
+node after `k` writes of the restart is the base state after those writes, the rest untouched. -/
+
+def recCrashAfterC (bc : Nat → Bool) (tbl : List BlkInfo) (d : DurableC) (k : Nat) : DurableC :=
+  { d with base := recCrashAfter bc tbl d.base k }
+
+def recCrashAfterZ (bc : Nat → Bool) (tbl : List BlkInfo) (d : DurableZ) (k : Nat) : DurableZ :=
+  { d with base := recCrashAfter bc tbl d.base k }
+
+/-- **Coherent compaction files, no fallback: the restart can be killed anywhere (all chains, any
+tail).** Lifts `recover_restartable_no_fallback` to the safe crash points of a compaction (`k = 0, 5,
+6, ≥ 11` of `compaction_safe_steps_all`), of a second compaction and of a block on a compacted node. -/
+theorem compaction_restartable_coherent (bcf : Nat → Bool) (tbl : List BlkInfo) (d : DurableC)
+    (h1 : d.out.coherent = true) (h2 : d.rp.coherent = true) (hp P : List BlkInfo)
+    (hhp : pathOf tbl (tbl.length + 1) d.base.dbHHead [] = some hp)
+    (hl1 : d.base.hdrHash.length = hp.length) (hl2 : d.base.hdrData.length = hp.length)
+    (hdata : d.base.hdrData = hp.map (·.id))
+    (hP : pathOf tbl (tbl.length + 1) d.base.dbHead [] = some P)
+    (hv : P.length ≤ 1 ∨ validAt bcf d.base [] P = true) (k : Nat) :
+    recoverC bcf tbl (recCrashAfterC bcf tbl d k) = .ok d.base.dbHead := by
+  have hk := recCrashAfter_kept bcf tbl d.base hp P hhp hl1 hl2 hdata hP hv k
+  unfold recCrashAfterC
+  generalize recCrashAfter bcf tbl d.base k = D at hk
+  have hhD : HdrOk tbl D :=
+    ⟨by rw [hk.hh, hk.hd, hl1, hl2], hp, by rw [hk.hhead]; exact hhp, by rw [hk.hd, hdata]; exact List.prefix_refl _⟩
+  rw [recoverC_of_hdrOk bcf tbl _ hhD]
+  simp only [hk.head]
+  apply fallbackC_stop bcf tbl _ _ _ [] P hP
+  rcases hv with hv | hv
+  · exact Or.inl hv
+  · right
+    rw [validAtC_of_coherent bcf { d with base := D } [] P h1 h2]
+    exact hk.valid.trans hv
+
+/-- **State-sync install, restart without fallback killed anywhere**: the crash points inside the
+sandbox (the chain directory still holds the old node: `P = [genesis]`) and after the directory swap
+(`P` = the archive header's path, valid on the installed files) -/
+theorem zip_restartable_no_fallback (bcf : Nat → Bool) (tbl : List BlkInfo) (d : DurableZ)
+    (ht : d.torn = false) (hp P : List BlkInfo)
+    (hhp : pathOf tbl (tbl.length + 1) d.base.dbHHead [] = some hp)
+    (hl1 : d.base.hdrHash.length = hp.length) (hl2 : d.base.hdrData.length = hp.length)
+    (hdata : d.base.hdrData = hp.map (·.id))
+    (hP : pathOf tbl (tbl.length + 1) d.base.dbHead [] = some P)
+    (hv : P.length ≤ 1 ∨ validAt bcf d.base [] P = true) (k : Nat) :
+    recoverZ bcf tbl (recCrashAfterZ bcf tbl d k) = .ok d.base.dbHead := by
+  have hk := recCrashAfter_kept bcf tbl d.base hp P hhp hl1 hl2 hdata hP hv k
+  unfold recCrashAfterZ
+  generalize recCrashAfter bcf tbl d.base k = D at hk
+  unfold recoverZ
+  have e1 : ¬ D.hdrHash.length ≠ D.hdrData.length := by rw [hk.hh, hk.hd, hl1, hl2]; simp
+  have e2 : ¬ D.hdrData.take hp.length ≠ hp.map (·.id) := by
+    rw [hk.hd, hdata]; simp [take_map_len]
+  simp only [ht, Bool.false_eq_true, if_false, e1, hk.hhead, hhp, e2, hk.head]
+  unfold fallbackZ
+  simp only [hP]
+  rcases hv with hv | hv
+  · simp [hv]
+  · have : validAt bcf D [] P = true := hk.valid.trans hv
+    by_cases h : P.length ≤ 1
+    · simp [h]
+    · simp [h, this]
+
 /-! non-vacuity -/
 
 example : ((PFiles.mk (some [(0, 0)]) (some []) []).coherent && (PFiles.clean []).coherent) = false := by decide
